@@ -533,10 +533,10 @@ pub fn run(ctx: &Ctx, st: &mut Stats) {
     }
     st.extra.insert("exhaustive_space".into(), serde_json::json!({"unit_alphabet": na, "states": ns, "ifs_values": nifs, "words": words, "cases": total}));
 
-    let n = ctx.tier.pick(150_000, 6_000_000);
+    let n = ctx.tier.pick(400_000, 6_000_000);
     WORD.run_random(ctx, st, n, arb_word_case);
 
-    let n = ctx.tier.pick(60_000, 2_000_000);
+    let n = ctx.tier.pick(150_000, 2_000_000);
     READ.run_random(ctx, st, n, arb_read_case);
 }
 
